@@ -347,7 +347,7 @@ fn c07_balance_sapling_1x1_memo() {
     }
 }
 
-//@ {"p":"C07","tier":"quick","clause":"the same formula with NO bound on sizes and counts: for every usize size and count the result is the exact 128-bit value when that is <= MAX_MONEY and Err(Balance(Overflow)) otherwise - never a panic, never a wrapped (too small) fee","bounds":"2 transparent inputs and 2 outputs, all four sizes and all four counts any usize","covers":3,"t":3600}
+//@ {"p":"C07","tier":"thorough","clause":"the same formula with NO bound on sizes and counts: for every usize size and count the result is the exact 128-bit value when that is <= MAX_MONEY and Err(Balance(Overflow)) otherwise - never a panic, never a wrapped (too small) fee","bounds":"2 transparent inputs and 2 outputs, all four sizes and all four counts any usize","covers":3,"t":3600}
 #[kani::proof]
 #[kani::unwind(4)]
 fn c07_fee_formula_full_range() {
@@ -374,6 +374,65 @@ fn c07_fee_formula_full_range() {
             assert!(matches!(e, FeeError::Balance(_)));
             kani::cover!(si == usize::MAX && oa == 1);
             kani::cover!(a == usize::MAX && b == usize::MAX);
+            core::mem::forget(e);
+        }
+    }
+}
+
+
+//@ {"p":"C07","tier":"quick","clause":"shielded-only transactions, NO bound on the counts: for every usize Sapling/Orchard/Ironwood count the fee is 5000*max(2, max(s_in,s_out)+orchard+ironwood) exactly when representable and Err(Balance(Overflow)) otherwise - never a panic, never a wrapped (too small) fee","bounds":"no transparent inputs/outputs; all four counts any usize","covers":3,"t":600}
+#[kani::proof]
+#[kani::unwind(2)]
+fn c07_fee_counts_full_range() {
+    let (si, so, oa, ia): (usize, usize, usize, usize) = (kani::any(), kani::any(), kani::any(), kani::any());
+    let r = Zip317FeeRule::standard().fee_required(
+        &MAIN_NETWORK,
+        BlockHeight::from_u32(kani::any()),
+        core::iter::empty::<InputSize>(),
+        core::iter::empty::<usize>(),
+        si,
+        so,
+        oa,
+        ia,
+    );
+    let want = zip317_reference(0, 0, si as u128, so as u128, oa as u128, ia as u128);
+    match r {
+        Ok(fee) => {
+            assert!(fee.into_u64() as u128 == want);
+            kani::cover!(fee.into_u64() == 15_000);
+        }
+        Err(e) => {
+            assert!(want > MAX_MONEY as u128);
+            assert!(matches!(e, FeeError::Balance(_)));
+            kani::cover!(si == usize::MAX && oa == 1);
+            kani::cover!(si == 0 && so == 0 && ia == 1 << 40);
+            core::mem::forget(e);
+        }
+    }
+}
+
+//@ {"p":"C07","tier":"quick","clause":"transparent sizes whose total does not fit a usize (inputs or outputs): Err(Balance(Overflow)), never a panic or a fee computed from a wrapped total","bounds":"2 inputs and 2 outputs, all usize sizes such that the input total or the output total overflows; counts any usize","covers":2,"t":600}
+#[kani::proof]
+#[kani::unwind(4)]
+fn c07_fee_sizes_overflow_edge() {
+    let (a, b, c, d): (usize, usize, usize, usize) = (kani::any(), kani::any(), kani::any(), kani::any());
+    kani::assume(a.checked_add(b).is_none() || c.checked_add(d).is_none());
+    let r = Zip317FeeRule::standard().fee_required(
+        &MAIN_NETWORK,
+        BlockHeight::from_u32(kani::any()),
+        [InputSize::Known(a), InputSize::Known(b)],
+        [c, d],
+        kani::any(),
+        kani::any(),
+        kani::any(),
+        kani::any(),
+    );
+    match r {
+        Ok(_) => panic!("a fee was returned although the ZIP 317 fee is not representable"),
+        Err(e) => {
+            assert!(matches!(e, FeeError::Balance(_)));
+            kani::cover!(a.checked_add(b).is_none() && c == 0);
+            kani::cover!(c.checked_add(d).is_none() && a == 0 && b == 0);
             core::mem::forget(e);
         }
     }
